@@ -99,9 +99,15 @@ def gen_case(rng, cid, families=None, kinds=('mh', 'pt'), allow_saveload=True,
         kw = {'window': rng.randint(3, 9), 'start_step': rng.choice([1, 1, 2, 3])}
         if allow_slow and rng.random() < 0.35:
             kw['jump_interval'] = rng.choice([2, 3])
-        if fam == 'adaptive_bounded_discrete':
-            pass
+        if fam.startswith('at_adaptive') and rng.random() < 0.4:
+            kw['componentwise'] = True
         c.props.append((fam, names, kw))
+    # componentwise scaling makes virtual moves that keep the other parameters fixed; a
+    # non-successive discrete proposal reports density 0 for a null move, so the virtual
+    # acceptance ratio is NaN and the real code raises (recorded under C14, not a plumbing matter)
+    if any(F.FAMILIES[f][1] in ('int', 'intbox') for f, _, _ in c.props):
+        for _, _, kw in c.props:
+            kw.pop('componentwise', None)
     c.blobs = rng.random() < 0.4
     c.model_kind = rng.choice(['quad', 'quad', 'slope', 'flat'])
     # ops
